@@ -3,7 +3,10 @@
 Pipeline: (1) build Props/C13 (theorems over the Lean model lean/Jap/Core/Resolver.lean: the
 resolver's algorithm `resolve` and, independently, Python's keyword binding `accepts`);
 (2) correspondence, both sides of the iff: generated programs (class hierarchies, call chains,
-pop/get, hard-coded arguments, constant and non-constant conditionals) are WRITTEN TO REAL SOURCE
+pop/get, hard-coded arguments, constant and non-constant conditionals, **kwargs kept in an attribute
+and forwarded by a method/property, classmethod factories `cls(**kwargs)` asked for on the defining
+class, on subclasses that inherit them, through class_from_function and through functions calling
+`Sub.factory(**kwargs)`) are WRITTEN TO REAL SOURCE
 FILES in a temp package and imported; (a) real `get_signature_parameters` /
 `parser.add_*_arguments` vs model `resolve` (names, order, annotation atoms, defaults, kinds,
 and the AttributeError fallback), (b) the real INTERPRETER (calling the class / function with each
@@ -38,8 +41,8 @@ MANIFEST = {
             "fuel bound suffices; the model is tied to the code by comparing it with get_signature_parameters/add_class_arguments and with the real "
             "interpreter on generated packages written to disk.",
     "level_note": "Trusted: Lean kernel; axioms propext/Quot.sound/Classical.choice only; the generator/renderer of the mini language; the correspondence "
-                  "harness. Outside: patterns not in the grammar (attribute-then-use, *args forwarding, method overriding, two super() calls in one body, "
-                  "stubs/pydantic/attrs resolvers, the assumptions fallback).",
+                  "harness. Outside: patterns not in the grammar (*args forwarding, method overriding, two super() calls in one body, dict(p=1, **kwargs) "
+                  "entries on the attribute path, attribute use never exercised, stubs/pydantic/attrs resolvers, the assumptions fallback).",
 }
 
 FIND_GET = "C13-get-forward"
@@ -1480,14 +1483,20 @@ def process(ctx, progs, T, parser_every, is_corpus=False):
 def run(ctx: Ctx):
     repo_python_path()
     ctx.rule = ("programs of the mini language (1-6 classes in hierarchies of depth 1-5 with single/multiple inheritance and diamonds, 0-3 functions, "
-                "instance methods, classmethods; bodies with kwargs.pop/get, super().__init__/super(X,self), calls of functions/classes/self methods/cls, "
+                "instance methods, classmethods (asked on every class that offers them, also by inheritance); bodies with kwargs.pop/get, super().__init__/"
+                "super(X,self), calls of functions/classes/self methods/cls/Sub.classmethod, **kwargs stored in an attribute and forwarded by a method/property, "
                 "hard-coded positional and keyword arguments, constant and non-constant conditionals; parameters with shadowing names, six annotations, "
                 "defaults, required and keyword-only) written to real module files; every class/function/classmethod is asked: real resolver vs model "
                 "`resolve`, real interpreter (one call per candidate name and branch selection) vs model `accepts`, and the property itself on the real "
                 "pair; non-trivial = query whose callable takes **kwargs and offers at least one parameter through it; distinct by program+query JSON")
     ctx.assumptions = [
         "the generator's renderer is the meaning of the mini language (one python statement per Use)",
-        "method names are unique per hierarchy (no overriding), at most one super() call per body and it is the last forwarding call",
+        "method and classmethod names are unique per hierarchy (no overriding), at most one super() call per body and it is the last forwarding call",
+        "attribute use: `self._kwN = kwargs` (or dict() + update(**kwargs)) is forwarded by ONE method/property of the same class to a function/class, "
+        "and __init__ exercises that member right after storing (so the interpreter's verdict is observable at construction); one such attribute per class; "
+        "in the model this is `Target.attrEntry` (same callee, does not feed the shared removed set) and C13_exact covers it",
+        "inherited classmethods: the model's class lists every classmethod the class OFFERS (own and inherited; the attribute lookup is an input "
+        "computed from the real MRO, like the MRO itself); class_from_function(Sub.factory) is compared at the parser surface only",
         "a branch of an if-chain that cannot be executed at all (its callee misses a required argument) is not an observation about acceptance",
         "`unique`'s hash classes of default values are recomputed by the harness (bool/int/float by hash, str, None, JSON of lists)",
         "C13_exact carries the explicit hypothesis that group_parameters does not raise (resolveOut ≠ crash); the excluded class is the open finding C13-conditional-first-crash",
